@@ -1,7 +1,8 @@
 (** Executable interface of the halves model for the correspondence check (component 5).
 
     Input: kind hops rbuf cs free0 freeF fault retry shape nvals nchan (ck which mode v1 v2 pre)*
-    -- see harness/src/halves.rs.  The origin sends [nvals] values over [hops] chained connections;
+    -- see harness/src/halves.rs ([pre] = number of items, 0..8, queued in an mpsc channel of queue
+    length 8 before its halves are handed over).  The origin sends [nvals] values over [hops] chained connections;
     the halves of [nchan] channels travel inside them.  Each value goes through [Ports.wire]
     (serialization with the ports the origin's allocator can still hand out, one [forward_hop] per
     intermediate node with batches of [cs / 4] requests, deserialization and matching by id at the
@@ -13,7 +14,7 @@
     (label received / clean end / error / absent). *)
 From Remoc Require Import Lib.Base Rch.Ports Gen.Halves.
 
-Record chan := mkChan { c_ck : N; c_which : N; c_mode : N; c_v1 : N; c_v2 : N; c_pre : bool }.
+Record chan := mkChan { c_ck : N; c_which : N; c_mode : N; c_v1 : N; c_v2 : N; c_pre : N }.
 
 Fixpoint parse_chans (n : nat) (l : list N) : option (list chan) :=
   match n with
@@ -22,7 +23,7 @@ Fixpoint parse_chans (n : nat) (l : list N) : option (list chan) :=
       match l with
       | ck :: which :: mode :: v1 :: v2 :: pre :: rest =>
           match parse_chans n' rest with
-          | Some cs => Some (mkChan ck which mode v1 v2 (negb (pre =? 0)) :: cs)
+          | Some cs => Some (mkChan ck which mode v1 v2 pre :: cs)
           | None => None
           end
       | _ => None
@@ -34,7 +35,7 @@ Definition chan_valid (nvals : N) (c : chan) : bool :=
   && (c_v1 c <=? c_v2 c)
   && (if 2 <=? c_which c then c_mode c =? 0 else c_v1 c =? c_v2 c)
   && (if c_ck c =? 3 then c_which c =? 1 else true)
-  && (if c_pre c then c_ck c =? 0 else true).
+  && (c_pre c <=? 8) && (if c_pre c =? 0 then true else c_ck c =? 0).
 
 (** Where the transfer of a half ended. *)
 Inductive link :=
@@ -78,7 +79,7 @@ Fixpoint all_parts (v : N) (i : nat) (cs : list chan) (ss : list cst) : list (na
   | _, _ => []
   end.
 
-Definition nth_chan (cs : list chan) (i : nat) : chan := nth i cs (mkChan 0 0 0 0 0 false).
+Definition nth_chan (cs : list chan) (i : nat) : chan := nth i cs (mkChan 0 0 0 0 0 0).
 Definition nth_st (ss : list cst) (i : nat) : cst := nth i ss (mkC LHome LHome il_init).
 
 (** Serialization pass over the leaves: [bin] / [lr] halves go through the interlock.
@@ -285,6 +286,12 @@ Fixpoint attached (ss : list cst) (i : nat) (c : N) (d : side) : option nat :=
       end
   end.
 
+(** the items queued in channel [k] before any half was handed over (at most 8 = the local queue of
+    the channel is completely full): they are delivered first, whatever happens to the travelling half;
+    what the wiring reports to the receiver end (a failed connect) comes after them *)
+Definition queued (k : nat) (p : N) : list N :=
+  map (fun j => 100 + N.of_nat k + 10 * j) (seqN 0 (N.to_nat p)).
+
 (** [observe cs ss broken i]: sender-end location and status, receiver-end location, items, status. *)
 Definition observe (cs : list chan) (ss : list cst) (broken : bool) (i : nat) : list N :=
   let c := nth_chan cs i in
@@ -337,7 +344,7 @@ Definition observe (cs : list chan) (ss : list cst) (broken : bool) (i : nat) : 
                | None => ST_ERR
                end
       end in
-    let want := if c_pre c then 2%nat else 1%nat in
+    let want := S (N.to_nat (c_pre c)) in
     let '(items, term) :=
       match s_rx s with
       | LRej | LDropped | LClosed => ([], ST_ABSENT)
@@ -346,7 +353,7 @@ Definition observe (cs : list chan) (ss : list cst) (broken : bool) (i : nat) : 
           else
             match core_of l with
             | Some k =>
-                let pre := if c_pre (nth_chan cs k) then [100 + N.of_nat k] else [] in
+                let pre := queued k (c_pre (nth_chan cs k)) in
                 let crossing := negb (is_home l) in
                 let lab := if broken && crossing then None else feeder k in
                 let its := pre ++ match lab with Some x => [x] | None => [] end in
